@@ -433,7 +433,7 @@ package tree
 //@   modifies map[string]int: methods
 //@   ensures [C04] monotone: forall k string :: (old(in(k, methods)) ==> in(k, methods) && methods[k] >= old(methods[k])) && (in(k, methods) ==> methods[k] >= 0)
 //@   ensures [C04] automatic-not-counted: forall k string :: !counted(k) ==> (in(k, methods) <==> old(in(k, methods))) && methods[k] == old(methods[k])
-//@   ensures [C04] children-counted: forall i int, k string :: 0 <= i && i < len(n.children) && in(k, n.children[i].handlers) && counted(k) ==> pos(methods, k)
+//@   ensures [C04,C18] children-counted: forall i int, k string :: 0 <= i && i < len(n.children) && in(k, n.children[i].handlers) && counted(k) ==> pos(methods, k)
 //@   ensures [C04,C18] trace-not-counted: n.root.hasTrace ==> (in("TRACE", methods) <==> old(in("TRACE", methods))) && methods["TRACE"] == old(methods["TRACE"])
 //@   ensures [C04] leaf: len(n.children) == 0 ==> dom(methods) == old(dom(methods)) && vals(methods) == old(vals(methods))
 //@   inv 1 bound: -1 <= rangeindex && rangeindex < len(n.children) && allSafe() && unchangedMaps("map[string]int", methods)
@@ -441,19 +441,19 @@ package tree
 //@   inv 1 [C04,C18] trace-not-counted: n.root.hasTrace ==> (in("TRACE", methods) <==> old(in("TRACE", methods))) && methods["TRACE"] == old(methods["TRACE"])
 //@   inv 1 [C04] monotone: forall k string :: (old(in(k, methods)) ==> in(k, methods) && methods[k] >= old(methods[k])) && (in(k, methods) ==> methods[k] >= 0)
 //@   inv 1 [C04] automatic-not-counted: forall k string :: !counted(k) ==> (in(k, methods) <==> old(in(k, methods))) && methods[k] == old(methods[k])
-//@   inv 1 [C04] children-counted: forall i int, k string :: 0 <= i && i <= rangeindex && in(k, n.children[i].handlers) && counted(k) ==> pos(methods, k)
+//@   inv 1 [C04,C18] children-counted: forall i int, k string :: 0 <= i && i <= rangeindex && in(k, n.children[i].handlers) && counted(k) ==> pos(methods, k)
 //@   inv 2 bound: -1 <= rangeindex && rangeindex + 1 < len(n.children) && allSafe() && unchangedMaps("map[string]int", methods)
 //@   inv 2 [C04,C18] trace-not-counted: n.root.hasTrace ==> (in("TRACE", methods) <==> old(in("TRACE", methods))) && methods["TRACE"] == old(methods["TRACE"])
 //@   inv 2 [C04] monotone: forall k string :: (old(in(k, methods)) ==> in(k, methods) && methods[k] >= old(methods[k])) && (in(k, methods) ==> methods[k] >= 0)
 //@   inv 2 [C04] automatic-not-counted: forall k string :: !counted(k) ==> (in(k, methods) <==> old(in(k, methods))) && methods[k] == old(methods[k])
-//@   inv 2 [C04] children-counted: forall i int, k string :: 0 <= i && i <= rangeindex && in(k, n.children[i].handlers) && counted(k) ==> pos(methods, k)
-//@   inv 2 [C04] this-child: (forall k string :: visited(2)[k] && counted(k) ==> pos(methods, k)) && (forall k string :: visited(2)[k] ==> in(k, n.children[rangeindex + 1].handlers))
+//@   inv 2 [C04,C18] children-counted: forall i int, k string :: 0 <= i && i <= rangeindex && in(k, n.children[i].handlers) && counted(k) ==> pos(methods, k)
+//@   inv 2 [C04,C18] this-child: (forall k string :: visited(2)[k] && counted(k) ==> pos(methods, k)) && (forall k string :: visited(2)[k] ==> in(k, n.children[rangeindex + 1].handlers))
 //
 //@ fn Tree.rebuildMethods
 //@   requires [C06] lock: theldW(tree)
 //@   requires treeOK(tree) && allSafe()
 //@   ensures [C04] root-mask: tree.node.methodIndex == 256 + (tree.hasTrace ? 64 : 0) + posMask(dom(tree.methods), tree.methods)
-//@   ensures [C04] live-methods-listed: forall i int, k string :: 0 <= i && i < len(tree.node.children) && in(k, tree.node.children[i].handlers) && counted(k) ==> pos(tree.methods, k)
+//@   ensures [C04,C18] live-methods-listed: forall i int, k string :: 0 <= i && i < len(tree.node.children) && in(k, tree.node.children[i].handlers) && counted(k) ==> pos(tree.methods, k)
 //@   ensures [C04] nothing-left: len(tree.node.children) == 0 ==> (forall k string :: !pos(tree.methods, k))
 //@   ensures [C04] automatic-not-counted: !pos(tree.methods, "OPTIONS") && !pos(tree.methods, "HEAD") && !pos(tree.methods, "")
 
@@ -534,5 +534,6 @@ package tree
 //
 //@ fn Tree.ApplyMiddleware
 //@   requires treeOK(tree) && allSafe() && (forall k int :: 0 <= k && k < len(ms) ==> ms[k] != nil)
+//@   ensures [C09] always-everything: called("tree.ApplyMiddleware", 1) && called("tree.node.applyMiddleware", 1) && tree.notFound == callresult("tree.ApplyMiddleware", 1, 0)
 //@   atcall tree.ApplyMiddleware [C09] special: (arg1 == "" || (arg1 == "TRACE" && tree.hasTrace)) && arg2 == "" && arg3 == tree.name && arg4 == ms
 //@   atcall tree.node.applyMiddleware [C09] whole-tree: arg0 == tree.node && arg1 == ms
